@@ -201,6 +201,13 @@ def run(ctx):
         iv_view = View(iv)
         _b, iv_info = entry_switch(iv_view, "serde_json::Value")
         iv_tests = consulted(iv_view, arm_regions(iv_view, iv_info).get("Number", set())) if iv_info else []
+        # serde_json holds a number as u64, i64 or f64; what is held as u64 above i64::MAX is `None` for as_i64 and rounded by
+        # as_f64: a classification that never asks the u64 accessors cannot hand such a number on unchanged (likewise for i64)
+        for who, tests in (("into_value", iv_tests), ("kind()", k_tests)):
+            for acc, what in (("u64", "a non-negative integer above i64::MAX"), ("i64", "a negative integer")):
+                if tests and acc not in tests and "f64" in tests:
+                    fs.append(fnd("C13.ORDER", v, "%s never consults the %s accessors of a number (it consults %s): %s can only come out as a float" % (
+                        who, acc, sorted(set(tests)), what)))
         if iv_tests and not k_tests:
             fs.append(fnd("C13.ORDER", v, "kind() does not look at how the number is held at all, into_value distinguishes %s: the two can disagree on a number" % sorted(set(iv_tests))))
         elif k_tests and iv_tests and set(k_tests) != set(iv_tests):
